@@ -531,8 +531,9 @@ def cases_for_expr(ctx, rng, e, full=True):
     out.append(Case(('shape', et), expr_sig(e, 'shape'), 'c15.shape ' + et, 'ok %d %d' % (r, c),
                     'c15.spec_shape %s %d %d' % (et, r, c), nontriv, dict(desc, query='shape')))
     # class of the returned object and its shape against the static type of the expression (OpExpr.type?)
-    out.append(Case(('type', et), expr_sig(e, 'type'), None, 'ok %s %d %d' % (kind, r, c),
-                    'c15.spec_type %s %s %d %d' % (et, kind, r, c), nontriv, dict(desc, query='type')))
+    # (which class Python returns is not part of the property: a difference is a broken tie, not a failing input)
+    out.append(Case(('type', et), expr_sig(e, 'type'), 'c15.type ' + et, 'ok %s %d %d' % (kind, r, c),
+                    None, nontriv, dict(desc, query='type')))
 
     def add_dot(expr, tag, x, wrong=False):
         ett = enc_expr(expr)
@@ -759,7 +760,7 @@ def cases_csr_utils(ctx, rng, a, full=True):
                 spec = 'c15.spec_neighbors %s %d %s %s' % (g, node, enc_bool(tr), impl[3:])
             out.append(Case(('neighbors', g, node, tr), {'entry': 'get_neighbors', 'transpose': tr},
                             'c15.neighbors %s %d %s' % (g, node, enc_bool(tr)), impl, spec, nt and node < lim,
-                            {'f': 'get_neighbors', 'matrix': md, 'node': node, 'transpose': tr}))
+                            {'f': 'get_neighbors', 'matrix': md, 'node': node, 'transpose': tr}, canon='multiset'))
         impl = _call(lambda: 'ok ' + enc_list(get_degrees(a, transpose=tr)))
         spec = 'c15.spec_degrees %s %s %s' % (g, enc_bool(tr), impl[3:]) if canonical and impl.startswith('ok ') else None
         out.append(Case(('degrees', g, tr), {'entry': 'get_degrees', 'transpose': tr}, 'c15.degrees %s %s' % (g, enc_bool(tr)),
@@ -786,7 +787,7 @@ def cases_membership(ctx, rng, labels, n_labels):
     spec = 'c15.spec_membership %s %s' % (lt, impl[3:]) if impl.startswith('ok ') else None
     out.append(Case(('membership', lt, nl), {'entry': 'get_membership', 'n_labels': n_labels is not None},
                     'c15.membership %s %s' % (lt, nl), impl, spec, nt,
-                    {'f': 'get_membership', 'labels': list(labels), 'n_labels': n_labels}))
+                    {'f': 'get_membership', 'labels': list(labels), 'n_labels': n_labels}, canon='csr'))
 
     def g():
         return 'ok ' + enc_list(from_membership(get_membership(arr, n_labels=n_labels)))
@@ -902,10 +903,26 @@ def _same(c, model, impl, spec_ok):
         if mt[1] == 'op':
             return _close_lists(dec_ratlist(mt[2]), dec_ratlist(it[2]))
         return True
+    if c.canon == 'multiset' and len(mt) == 2 and len(it) == 2:
+        # the order of the stored entries of a row is a storage detail (DESIGN 8: orders the code does not define)
+        return sorted(dec_list(mt[1])) == sorted(dec_list(it[1]))
+    if c.canon == 'csr' and len(mt) == 6 and len(it) == 6:
+        return _csr_dense(mt[1:]) == _csr_dense(it[1:])
     if c.canon == 'topk':
         # argpartition / argsort order ties as they like: the spec line is the judge
         return sorted(dec_list(mt[1])) == sorted(dec_list(it[1])) or spec_ok and c.spec is not None and _topk_tie(c, mt, it)
     return False
+
+
+def _csr_dense(toks):
+    """['n','m',indptr,indices,data] -> (n, m, sorted entries with duplicates added up)"""
+    n, m = int(toks[0]), int(toks[1])
+    ip, ix, dt = dec_list(toks[2]), dec_list(toks[3]), dec_ratlist(toks[4])
+    acc = {}
+    for i in range(n):
+        for p in range(ip[i], ip[i + 1]):
+            acc[(i, ix[p])] = acc.get((i, ix[p]), 0) + dt[p]
+    return n, m, sorted((k, v) for k, v in acc.items() if v != 0)
 
 
 def _topk_tie(c, mt, it):
